@@ -20,3 +20,9 @@ Definition search_strings_z (a : list string) (x : string) : option Z :=
 
 (* a three-way model result read as "value or panic" *)
 Definition res_opt {A} (r : res A) : option A := match r with Val a => Some a | _ => None end.
+
+(* a Way / a Relation as the regenerated code sees its receiver: the fields that are read *)
+Definition gway := (list waynode * tags)%type.
+Definition gw_nodes (w : gway) : list waynode := fst w.
+Definition gw_tags (w : gway) : tags := snd w.
+Definition gr_tags (r : tags) : tags := r.
